@@ -79,7 +79,7 @@ def pcName : PC → String
   | .getCount _ _ => "getCount" | .getMax _ _ _ => "getMax" | .getMaxCas _ _ _ _ => "getMaxCas"
   | .cMax _ _ => "cMax" | .cMaxCas _ _ _ => "cMaxCas" | .cLoadMx _ => "cLoadMx" | .getTotal _ _ => "getTotal"
   | .apFill _ _ => "apFill" | .apPlace _ _ => "apPlace" | .crashed _ => "crashed"
-  | .freeReset _ => "freeReset" | .freeUnlock _ => "freeUnlock" | .freeDec _ => "freeDec"
+  | .freeReset _ => "freeReset" | .freeYield _ => "freeYield" | .freeUnlock _ => "freeUnlock" | .freeDec _ => "freeDec"
   | .lockSpin _ => "lockSpin" | .lockTry _ => "lockTry" | .unlockL _ => "unlockL"
   | .tlStart _ _ => "tlStart" | .tl0 _ _ => "tl0" | .tl1 _ _ => "tl1" | .tlBack _ _ => "tlBack"
   | .tuStart _ => "tuStart" | .tu1 _ => "tu1" | .tu0 _ => "tu0" | .addLock _ _ _ => "addLock" | .addBody _ _ _ => "addBody"
@@ -134,31 +134,32 @@ def parseScen (ws : List String) : Option Scen :=
                         children := fun t => (hydro.getD t ([], 0)).1, queueOf := fun t => (hydro.getD t ([], 0)).2,
                         nq := nat! nq },
                nlocks := nat! nl, nqueues := nat! nq, nctr := nat! nc, ntasks := table.length, progs := progs, mode := m,
-               sched := if m = "X" || m = "XI" then arg.toList.map (fun c => c.toNat - '0'.toNat) else [] }
+               sched := if m.startsWith "X" then arg.toList.map (fun c => c.toNat - '0'.toNat) else [] }
       | _ => none
     | _ => none
 
 /-- the real thread runs on without a yield: plain code, and — as long as AtomicValue::max has
 no yield inside its loop (hook H1 fires once at its entry) — the compare-exchange of `max` right
 after its load -/
-def runsOn (inner : Bool) (th : Thread) : Bool :=
-  th.silent || (!inner && match th.pc with
-    | .getMaxCas _ _ _ _ => true
-    | .cMaxCas _ _ _ => true
-    | _ => false)
+def runsOn (inner ms : Bool) (th : Thread) : Bool :=
+  match th.pc with
+  | .getMaxCas _ _ _ _ => !inner
+  | .cMaxCas _ _ _ => !inner
+  | .freeYield _ => !ms        -- with the MemorySpace hook the thread parks between wipe and release
+  | _ => th.silent
 
-def settleD (cfg : Cfg) (inner : Bool) : Nat → State → Nat → State
+def settleD (cfg : Cfg) (inner ms : Bool) : Nat → State → Nat → State
   | 0, s, _ => s
   | fuel + 1, s, tid =>
     match s.threads[tid]? with
-    | some th => if runsOn inner th then settleD cfg inner fuel (step cfg s tid) tid else s
+    | some th => if runsOn inner ms th then settleD cfg inner ms fuel (step cfg s tid) tid else s
     | none => s
 
 def allFinished (s : State) : Bool := s.threads.all Thread.finished
 
 /-- one schedule entry; returns the new state, the results it produced (oldest first) and the
 transition tags -/
-def entry (cfg : Cfg) (inner : Bool) (s : State) (tid : Nat) : State × List String × List String :=
+def entry (cfg : Cfg) (inner ms : Bool) (s : State) (tid : Nat) : State × List String × List String :=
   match s.threads[tid]? with
   | none => (s, [], [])
   | some th =>
@@ -167,17 +168,17 @@ def entry (cfg : Cfg) (inner : Bool) (s : State) (tid : Nat) : State × List Str
     let s1 := step cfg s tid
     let pc1 := (s1.threads[tid]?.map (·.pc)).getD .idle
     let tag := s!"{pcName th.pc}>{pcName pc1}"
-    let s2 := settleD cfg inner 100000 s1 tid
+    let s2 := settleD cfg inner ms 100000 s1 tid
     let n0 := th.res.length
     let th2 := (s2.threads[tid]?).getD th
     let newRes := (th2.res.take (th2.res.length - n0)).reverse
     let tag2 := if pcName pc1 != pcName th2.pc then [s!"{pcName pc1}>>{pcName th2.pc}"] else []
     (s2, newRes.map (fun r => s!"{tid}:{showRes r}"), tag :: tag2)
 
-def settleAll (cfg : Cfg) (inner : Bool) (s : State) : State × List String :=
+def settleAll (cfg : Cfg) (inner ms : Bool) (s : State) : State × List String :=
   (List.range s.threads.length).foldl (fun (p : State × List String) tid =>
     let th0 := (p.1.threads[tid]?).getD {}
-    let s' := settleD cfg inner 100000 p.1 tid
+    let s' := settleD cfg inner ms 100000 p.1 tid
     let th1 := (s'.threads[tid]?).getD {}
     let newRes := (th1.res.take (th1.res.length - th0.res.length)).reverse
     (s', p.2 ++ newRes.map (fun r => s!"{tid}:{showRes r}"))) (s, [])
@@ -207,21 +208,22 @@ def addTags (acc : List String) (ts : List String) : List String :=
 def runScen (sc : Scen) : String :=
   let cfg := sc.cfg
   let n := sc.progs.length
-  let inner := sc.mode = "XI"
-  let isX := sc.mode = "X" || sc.mode = "XI"
-  let (s0, r0) := settleAll cfg inner (init sc.progs)
+  let isX := sc.mode.startsWith "X"
+  let inner := isX && sc.mode.contains 'I'
+  let ms := isX && sc.mode.contains 'M'
+  let (s0, r0) := settleAll cfg inner ms (init sc.progs)
   let nextra := if isX then 600 else 2000000
   let sched := if isX then sc.sched else []
   -- results are accumulated newest first
   let (s1, out, tags) := sched.foldl (fun (p : State × List String × List String) tid =>
-    let (s', r, t) := entry cfg inner p.1 tid
+    let (s', r, t) := entry cfg inner ms p.1 tid
     (s', r.reverse ++ p.2.1, addTags p.2.2 t)) (s0, r0.reverse, [])
   let rec loop (fuel e : Nat) (p : State × List String × List String) : State × List String × List String :=
     match fuel with
     | 0 => p
     | fuel + 1 =>
       if n = 0 || allFinished p.1 then p else
-      let (s', r, t) := entry cfg inner p.1 (e % n)
+      let (s', r, t) := entry cfg inner ms p.1 (e % n)
       loop fuel (e + 1) (s', r.reverse ++ p.2.1, addTags p.2.2 t)
   let (s2, outR, tagsR) := loop nextra 0 (s1, out, tags)
   let out2 := outR.reverse
@@ -244,6 +246,8 @@ def runScen (sc : Scen) : String :=
     (if stuck.isEmpty then "" else " STUCK") ++ s!" #{tagStr}"
 
 def stepLine (_ : Unit) (ws : List String) : Unit × String :=
+  -- oracle-only lines (real concurrency, results depend on the schedule): nothing to simulate
+  if ws.contains "G" && (ws.dropLast.getLast? == some "G") then ((), "free-ok") else
   match parseScen ws with
   | some sc => ((), runScen sc)
   | none => ((), "bad-op")
